@@ -147,10 +147,27 @@ def toptwo(ctx):
     P = ctx.params
     opts, cands = P.get("opts", {}), P["cands"]
     profile, present = C.family_profile(ctx, P["family"], cands, strict=True)
+    ctx.tape_record()
     k, e = run(ctx, "TopTwo", profile, 1, opts)
     if k != "ok":
-        ctx.require(True, "c13:toptwo-raised (C01's subject)")
+        # the composition must fail too: Plurality for two seats, then Plurality for one on the reduced profile
+        ctx.tape_replay()
+        try:
+            k1, e1 = run(ctx, "Plurality", profile, 2, {"tiebreak": opts.get("tiebreak")})
+            k2 = "skipped"
+            if k1 == "ok":
+                two = C.flat(e1.get_elected())
+                p2, _ = spec_reduced_profile(present, set(two), cands)
+                k2, _e2 = run(ctx, "Plurality", p2, 1, {"tiebreak": opts.get("tiebreak")})
+        except TapeMismatch:
+            k1 = k2 = "tape"
+        ctx.tape_off()
+        if k1 == "ok" and k2 == "ok":
+            ctx.fail("c13:toptwo-raises-but-composition-succeeds", f"TopTwo raised {e} although both Plurality stages succeed")
+        else:
+            ctx.require(True, "c13:toptwo-and-composition-both-raise")
         return {"kind": k}
+    ctx.tape_off()
     fpv = C.def_fpv(present, cands)
     st = e.election_states
     if len(st) != 3:
@@ -190,8 +207,23 @@ def alaska(ctx):
     ctx.tape_record()
     k, e = run(ctx, "Alaska", profile, m2, opts)
     if k != "ok":
+        # the composition must fail too (Plurality for m_1 seats, then STV for m_2 on the reduced profile)
+        had_random = any(c.get("random") for c in ctx.rlog)
+        ctx.tape_replay()
+        try:
+            k1, e1 = run(ctx, "Plurality", profile, m1, {"tiebreak": opts.get("tiebreak")})
+            k2 = "skipped"
+            if k1 == "ok":
+                keep0 = C.flat(e1.get_elected())
+                p1_, _ = spec_reduced_profile(present, set(keep0), cands)
+                k2, _e2 = run(ctx, "STV", p1_, m2, opts)
+        except TapeMismatch:
+            k1 = k2 = "tape"
         ctx.tape_off()
-        ctx.require(True, "c13:alaska-raised (C01's subject)")
+        if k1 == "ok" and k2 == "ok" and not had_random:
+            ctx.fail("c13:alaska-raises-but-composition-succeeds", f"Alaska raised {e} although Plurality(m_1) and STV(m_2) on the reduced profile succeed")
+        else:
+            ctx.require(True, "c13:alaska-and-composition-both-raise (or random redraw, see C01 F14)")
         return {"kind": k}
     st = e.election_states
     fpv = C.def_fpv(present, cands)
